@@ -3,6 +3,7 @@ import AscentVerif.Model.Engine
 import AscentVerif.Model.StdInterp
 import AscentVerif.Model.Hir
 import AscentVerif.Model.EnginePhys
+import AscentVerif.Model.EnginePhysPar
 import AscentVerif.Proofs.PlanSwapBody
 namespace AscentVerif.Driver
 open AscentVerif AscentVerif.Std AscentVerif.Engine
@@ -204,6 +205,37 @@ def doRunPhys (s : EngStore) (inst : String) : Option (EngStore × String) := do
         some ({ s with insts := (inst, { i with st := st, iters := ps.iters }) :: s.insts.filter (·.1 != inst) }, "ok")
       | none => some (s, "nofuel")
 
+/-- a concrete schedule: odd-numbered steps run in reverse order, worker `n % 7` performs the `n`-th insert, every third
+comparison of sampled `len_estimate`s picks the swapped copy -/
+def demoSched (seed : Nat) : PhysPar.Sched Ex Bx Gx Px Ax where
+  permRows k l := if (k + seed) % 2 == 1 then l.reverse else l
+  permRows_perm k l := by
+    by_cases h : (k + seed) % 2 == 1
+    · simp only [h, if_true]; exact List.reverse_perm l
+    · simp only [h]; exact List.Perm.refl l
+  permTasks k l := if (k + seed) % 2 == 0 then l.reverse else l
+  permTasks_perm k l := by
+    by_cases h : (k + seed) % 2 == 0
+    · simp only [h, if_true]; exact List.reverse_perm l
+    · simp only [h]; exact List.Perm.refl l
+  tid n := (n + seed) % 7
+  swap n := (n + seed) % 3 == 0
+
+/-- `run()` through the PARALLEL physical-index engine model (`Model/EnginePhysPar.lean`) in a pool of `threads` workers -/
+def doRunPhysPar (s : EngStore) (inst : String) (threads : Nat) : Option (EngStore × String) := do
+    let i ← (s.insts.find? (·.1 == inst)).map (·.2)
+    let p := i.pd.prog
+    if p.rels.any (·.lat) || p.rules.any (fun r => r.body.any fun | .agg _ => true | _ => false) then some (s, "na")
+    else
+      let ix := Phys.ixSetsOf stdVars p
+      let s0 : PhysPar.PCSt := PhysPar.initSt threads p ix fun r => (relSt i.st r).rows
+      match PhysPar.run (interp (kindOf i.pd)) stdVars p ix i.pd.order (demoSched threads) threads defaultFuel s0 with
+      | .ok (some ps) =>
+        let st : St := ps.st.map fun pr => { rows := pr.rows, idx := List.range pr.rows.length }
+        some ({ s with insts := (inst, { i with st := st, iters := ps.iters }) :: s.insts.filter (·.1 != inst) }, "ok")
+      | .ok none => some (s, "nofuel")
+      | .panic => some (s, "panic (frozen-state protocol)")
+
 def handleEng (s : EngStore) : List Sexp → Option (EngStore × String)
   | [.atom "prog", .atom id, p] => do
     let pd ← parseProg p
@@ -237,6 +269,7 @@ def handleEng (s : EngStore) : List Sexp → Option (EngStore × String)
       let i' := { i with st := setNth i.st r rs' }
       some ({ s with insts := (inst, i') :: s.insts.filter (·.1 != inst) }, "ok")
     else if op == "runin" then doRun s inst
+    else if op == "runpp" then do doRunPhysPar s inst (← r.asNat?)
     else if op == "runto" then do
       let i ← (s.insts.find? (·.1 == inst)).map (·.2)
       let k ← r.asNat?
